@@ -236,8 +236,15 @@ func (rn *runner) run(k int, r *rand.Rand, keys []key, word []sym, rawBodies boo
 		}
 		// (b) the template table must be the model's
 		snap := dec.CP.VerifTemplates()
-		if len(snap) != len(model) {
-			return fail(i, "template-table", fmt.Sprintf("collector holds %d templates, model %d (%v)", len(snap), len(model), keysOf(model)))
+		// (a template without fields decodes nothing; RFC 7011 8.1 reads it as a withdrawal: held or not is the same to every data set)
+		held := map[mirror.Key]bool{}
+		for _, ti := range snap {
+			held[mirror.Key{Domain: ti.ObsDomainID, TID: ti.TemplateID}] = true
+		}
+		for mk, l := range model {
+			if !held[mk] && len(l.Fields) > 0 && !l.Gray { // (a reduced-size template is one the library does not support: it may refuse it)
+				return fail(i, "template-table", fmt.Sprintf("collector holds %d templates and not (%d,%d); model %d (%v)", len(snap), mk.Domain, mk.TID, len(model), keysOf(model)))
+			}
 		}
 		for _, ti := range snap {
 			l, ok := model[mirror.Key{Domain: ti.ObsDomainID, TID: ti.TemplateID}]
